@@ -188,7 +188,8 @@ func (fr *Frame) execInstr(ins ssa.Instruction, c *blockCtx) {
 		for _, r := range ins.Results {
 			vs = append(vs, fr.val(r))
 		}
-		fr.rets = append(fr.rets, retPoint{c.reach, c.st.clone(), vs})
+		rp := fr.g.W.fset.Position(ins.Pos())
+		fr.rets = append(fr.rets, retPoint{c.reach, c.st.clone(), vs, fmt.Sprintf("%s:%d", shortPath(rp.Filename), rp.Line)})
 		fr.edgeCond[fr.curBlock] = nil
 	case *ssa.Panic:
 		fr.execPanic(ins, c)
